@@ -131,7 +131,9 @@ func refEval(c []*big.Int, x, q *big.Int) *big.Int {
 	return v
 }
 
-func xOfIdx(i int64, q *big.Int) *big.Int { return modq(big.NewInt(0).Add(big.NewInt(i), big.NewInt(1)), q) }
+func xOfIdx(i int64, q *big.Int) *big.Int {
+	return modq(big.NewInt(0).Add(big.NewInt(i), big.NewInt(1)), q)
+}
 
 // inverse modulo the prime q; ok=false for 0
 func refInv(a, q *big.Int) (*big.Int, bool) {
